@@ -77,6 +77,11 @@ CHECKS["C17"] = ("model_checking", _DIMSE_TECH,
     "All 23 messages x every subset of their optional/conditional parameters x data-set state x three value classes (minimum, maximum, typical; 1 and 3 element tag lists, tag 0) enumerated by TLC from the PS3.7 catalogue and round-tripped; command field compared with the catalogue.",
     "Trusted: transcription of the PS3.7 parameter tables; values restricted to what the primitives accept; AE titles compared modulo padding.", "§6 C17", "dimse")
 
+CHECKS["C19"] = ("model_checking",
+    "TLA+ CtxGuard spec (peer chooses request kind and the context ids of command and data fragments; serve only on accepted contexts) model-checked by TLC; every case TLC enumerates is injected as real P-DATA primitives into the real DIMSE provider and served through the reactor path, the N-EVENT-REPORT thread path and the C-GET requestor's storage SCP (S2C); observations judged by the Trace_CtxGuard spec (C2S)",
+    "All 12 request kinds x command context in {accepted, rejected with the same abstract syntax, another kind's accepted/rejected, never proposed 201/255, invalid 0/2/100} x data context in {same, accepted, rejected}: no handler call and no normal response unless the command set arrived on an accepted context.",
+    "Trusted: one emulated reactor iteration (get_msg -> _serve_request); transport cut at dul.send_pdu. A data fragment mislabelled with another id is observed (DRIFT), not judged.", "§6 C19", "ctxguard")
+
 NOT_YET = {}
 
 
